@@ -81,6 +81,14 @@ type c11HTTPCase struct {
 	Fwd    string   `json:"proxy_headers_claimed,omitempty"`
 }
 
+// hand-rolled DER: { family IPv4 unicast, { block containing 198.51.100.9, 40-bit block } } in both orders
+var c11ValidThenMalformed = [][]byte{
+	{0x30, 0x14, 0x30, 0x12, 0x04, 0x03, 0x00, 0x01, 0x01, 0x30, 0x0b, 0x03, 0x01, 0x00, 0x03, 0x06, 0x00, 0x01, 0x02, 0x03, 0x04, 0x05},
+	{0x30, 0x14, 0x30, 0x12, 0x04, 0x03, 0x00, 0x01, 0x01, 0x30, 0x0b, 0x03, 0x06, 0x00, 0x01, 0x02, 0x03, 0x04, 0x05, 0x03, 0x01, 0x00},
+	{0x30, 0x18, 0x30, 0x16, 0x04, 0x03, 0x00, 0x01, 0x01, 0x30, 0x0f, 0x03, 0x05, 0x00, 0xc6, 0x33, 0x64, 0x09, 0x03, 0x06, 0x00, 0x01, 0x02, 0x03, 0x04, 0x05},
+	{0x30, 0x18, 0x30, 0x16, 0x04, 0x03, 0x00, 0x01, 0x01, 0x30, 0x0f, 0x03, 0x06, 0x00, 0x01, 0x02, 0x03, 0x04, 0x05, 0x03, 0x05, 0x00, 0xc6, 0x33, 0x64, 0x09},
+}
+
 func TestVerifC11Http(t *testing.T) {
 	rep := newVerifReport("C11", "HTTP: automation certificates minted through the real admin route for seeded netblock lists (prefix 0..32) presented with real verified chains from boundary peers to the certificate, user-admin, mint and refresh routes; admitted <=> inside (uint32 oracle) and only on routes that take IP certificates; refresh output decoded (same CN, same netblocks); corrupted extensions never admit an outside peer; class = (route, prefix length, peer position, outcome)")
 	defer rep.Finish()
@@ -291,7 +299,10 @@ func TestVerifC11Http(t *testing.T) {
 	good := verifIPExtension([]net.IPNet{mustCIDR("10.20.0.0/16")}).Value
 	for i := 0; i < nCorrupt; i++ {
 		val := append([]byte{}, good...)
-		if i%3 == 0 {
+		if i < len(c11ValidThenMalformed) {
+			// a block that contains the peer next to an oversized one: malformed as a whole
+			val = append([]byte{}, c11ValidThenMalformed[i]...)
+		} else if i%3 == 0 {
 			val = c10RandomIPExt(rng)
 		} else {
 			for k := 1 + rng.Intn(3); k > 0; k-- {
